@@ -1,4 +1,5 @@
 import LasioModel.HeaderLine
+import LasioProofs.Lemmas.HeaderLineLemmas
 /-
 C04 — header line grammar: parsing inverts formatting under any padding.
 Property theorems only; helper lemmas live in LasioProofs/Lemmas/HeaderLineLemmas.lean.
@@ -8,5 +9,74 @@ namespace Lasio
 theorem C04_firstSome_head {α β} (a : α) (as : List α) (f : α → Option β) (b : β)
     (h : f a = some b) : firstSome (a :: as) f = some b := by
   simp [firstSome, h]
+
+/-- padding: blanks and TABs only -/
+def Blank (p : Str) : Prop := ∀ c ∈ p, c = ' ' ∨ c = '\t'
+/-- ".." occurs in `s` -/
+def hasDotDot (s : Str) : Prop := (findDotDot s).isSome
+def allDigits (s : Str) : Prop := ∀ c ∈ s, isAsciiDigit c = true
+
+/-- the laid-out line  `p0 name p1 . unit p2 value p3 : p4 descr p5` -/
+def layout (f : Fields) (p0 p1 p2 p3 p4 p5 : Str) : Str :=
+  p0 ++ f.name ++ p1 ++ '.' :: (f.unit ++ p2 ++ f.value ++ p3 ++ ':' :: (p4 ++ f.descr ++ p5))
+
+/-- conformant field contents (the property's field conditions) -/
+structure Conf (sec : SecName) (f : Fields) : Prop where
+  name_ne : f.name ≠ []
+  name_strip : strip f.name = f.name
+  name_chars : ∀ c ∈ f.name, c ≠ '.' ∧ c ≠ ':'
+  unit_nosp : ∀ c ∈ f.unit, isPySpace c = false
+  unit_nodd : ¬ hasDotDot f.unit
+  unit_first : f.unit.head? ≠ some '.'
+  unit_last : f.unit.getLast? ≠ some '.'
+  value_strip : strip f.value = f.value
+  value_nocolon : ∀ c ∈ f.value, c ≠ ':'
+  value_nodd : sec = .curves → ¬ hasDotDot f.value
+  descr_strip : strip f.descr = f.descr
+  descr_nocolon : sec ≠ .parameter → ∀ c ∈ f.descr, c ≠ ':'
+
+/-- padding conditions forced by the grammar -/
+structure PadOK (sec : SecName) (f : Fields) (p0 p1 p2 p3 p4 p5 : Str) : Prop where
+  blanks : Blank p0 ∧ Blank p1 ∧ Blank p2 ∧ Blank p3 ∧ Blank p4 ∧ Blank p5
+  /-- otherwise the value is glued to the unit -/
+  value_sep : f.value ≠ [] → p2 ≠ []
+  /-- a single blank is the documented `1000 lbf` form -/
+  digit_unit : f.unit ≠ [] → allDigits f.unit → f.value ≠ [] → 2 ≤ p2.length
+
+/-- **C04, sections other than ~Parameter**: parsing the laid-out line gives the fields back,
+whatever the padding. -/
+theorem C04_main (sec : SecName) (hsec : sec ≠ .parameter) (f : Fields) (p0 p1 p2 p3 p4 p5 : Str)
+    (hc : Conf sec f) (hp : PadOK sec f p0 p1 p2 p3 p4 p5) :
+    parseHeaderLine sec (layout f p0 p1 p2 p3 p4 p5) = some f := by
+  obtain ⟨b0, b1, b2, b3, b4, b5⟩ := hp.blanks
+  have sp : ∀ {p : Str}, Blank p → ∀ c ∈ p, isPySpace c = true :=
+    fun h c hc => IsBlank.space (h c hc)
+  have nd : ∀ {p : Str}, Blank p → ∀ c ∈ p, c ≠ '.' := fun h c hc => IsBlank.ne_dot (h c hc)
+  have nc : ∀ {p : Str}, Blank p → ∀ c ∈ p, c ≠ ':' := fun h c hc => IsBlank.ne_colon (h c hc)
+  have hline : layout f p0 p1 p2 p3 p4 p5 =
+      (p0 ++ f.name ++ p1) ++ '.' :: (f.unit ++ (p2 ++ f.value ++ p3) ++ ':' :: (p4 ++ f.descr ++ p5)) := by
+    simp [layout]
+  have key := parse_layout_ok sec hsec (p0 ++ f.name ++ p1) f.unit (p2 ++ f.value ++ p3)
+    (p4 ++ f.descr ++ p5)
+    (by have := hc.name_ne; simp [this])
+    (forall_mem_append3 _ _ _ (nd b0) (fun c h => (hc.name_chars c h).1) (nd b1))
+    (forall_mem_append3 _ _ _ (nc b0) (fun c h => (hc.name_chars c h).2) (nc b1))
+    hc.unit_nosp hc.unit_last
+    (head?_pad (fun c => isPySpace c = true) _ _ _ (sp b2) (sp b3) hp.value_sep)
+    (fun hne hd => second_pad (fun c => isPySpace c = true) _ _ _ (sp b2) (sp b3)
+      (hp.digit_unit hne hd))
+    (forall_mem_append3 _ _ _ (nc b4) (hc.descr_nocolon hsec) (nc b5))
+    (by
+      intro hcv
+      refine ⟨hc.unit_first, ?_, ?_⟩
+      · have := hc.unit_nodd
+        simpa [hasDotDot] using this
+      · apply findDotDot_pad _ _ _ (nd b2) (nd b3)
+        have := hc.value_nodd hcv
+        simpa [hasDotDot] using this)
+  rw [hline, key, strip_pad _ _ _ (sp b0) (sp b1), strip_pad _ _ _ (sp b2) (sp b3),
+    strip_pad _ _ _ (sp b4) (sp b5), hc.name_strip, hc.value_strip, hc.descr_strip]
+
+#print axioms C04_main
 
 end Lasio
